@@ -2700,6 +2700,13 @@ func (s *Store) fsmSnapshot() (fSnap raft.FSMSnapshot, retErr error) {
 			s.numFullSnapshotsMetaFail.Add(1)
 			return nil, fmt.Errorf("checkpoint did not succeed during full snapshot")
 		}
+		// The database file now contains everything, and the full snapshot starts a new
+		// series. Any WAL files staged by earlier incremental attempts (persist skipped
+		// or failed) belong to the previous series and must never be packaged with a
+		// later incremental snapshot.
+		if err := s.clearWALStaging(); err != nil {
+			return nil, err
+		}
 		streamer, err := snapshot.NewSnapshotStreamer(s.db.Path())
 		if err != nil {
 			return nil, err
@@ -2848,6 +2855,10 @@ func (s *Store) fsmRestore(rc io.ReadCloser) (retErr error) {
 	// fast-restart with it.
 	if err := fsutil.RemoveFile(s.cleanSnapshotPath); err != nil {
 		return fmt.Errorf("failed to remove clean snapshot file: %w", err)
+	}
+	// Likewise any staged WAL files are relative to the database being replaced.
+	if err := s.clearWALStaging(); err != nil {
+		return err
 	}
 	if err := s.db.Swap(tmpPath, s.dbConf.FKConstraints, true); err != nil {
 		return fmt.Errorf("error swapping database file: %v", err)
@@ -3135,6 +3146,16 @@ func (s *Store) createSnapshotFingerprint() error {
 		return fmt.Errorf("failed to write snapshot fingerprint to temp file: %s", err)
 	}
 	return os.Rename(tmpFP, s.cleanSnapshotPath)
+}
+
+// clearWALStaging removes the WAL staging directory, and any WAL files in it. It must
+// be called whenever the database the staged WAL files are relative to stops being the
+// base of the next incremental snapshot.
+func (s *Store) clearWALStaging() error {
+	if err := os.RemoveAll(s.walStagingDir); err != nil {
+		return fmt.Errorf("failed to remove WAL staging directory: %w", err)
+	}
+	return nil
 }
 
 func (s *Store) installRestore() error {
